@@ -191,7 +191,22 @@ pub fn builders_ground(thorough: bool) -> EvalResult {
         for (name, r) in h.join().unwrap_or_default() {
             res.obligations += 1;
             match r {
-                Ok(info) => { res.discharged += 1; trace.push(format!("{name}:{info}")); }
+                Ok(info) => {
+                    // the limit itself is admissible: an offer that lands exactly on it is accepted, one half byte over is not
+                    let want = if name.ends_with("/limit+0") || name.ends_with("/limit-1") { Some("A") } else if name.ends_with("/limit+1") { Some("r") } else { None };
+                    match want {
+                        Some(w) if info != w => {
+                            if res.failures.len() < 6 {
+                                res.failures.push(json!({"id": format!("builders_ground/{name}"), "function": "BlockBuilder / InternedBlockBuilder",
+                                    "message": format!("history {name}: decision '{info}' (A accepted, r refused), the limit rule says '{w}'"),
+                                    "clause": "an offer landing exactly on the block limit is accepted, one over it is refused",
+                                    "cex": {"unit": "eval", "function": "builders_ground", "input": {"history": name}}}));
+                            }
+                        }
+                        _ => { res.discharged += 1; }
+                    }
+                    trace.push(format!("{name}:{info}"));
+                }
                 Err(m) => if res.failures.len() < 6 {
                     res.failures.push(json!({"id": format!("builders_ground/{name}"), "function": "BlockBuilder / InternedBlockBuilder",
                         "message": format!("history {name}: {m}"),
@@ -215,7 +230,12 @@ pub fn replay_builders(input: &Value) -> (bool, String) {
     let mut out = (false, "unknown history".to_string());
     for (name, k, o) in histories(true) {
         if name == want {
-            out = match run_history(k, &o, name.ends_with("/fresh-estimate")) { Ok(_) => (false, format!("history {name}: holds")), Err(m) => (true, format!("history {name}: {m}")) };
+            out = match run_history(k, &o, name.ends_with("/fresh-estimate")) {
+                Ok(info) => {
+                    let want = if name.ends_with("/limit+0") || name.ends_with("/limit-1") { Some("A") } else if name.ends_with("/limit+1") { Some("r") } else { None };
+                    match want { Some(w) if info != w => (true, format!("history {name}: decision '{info}', the limit rule says '{w}'")), _ => (false, format!("history {name}: holds")) }
+                }
+                Err(m) => (true, format!("history {name}: {m}")) };
         }
     }
     std::panic::set_hook(prev);
